@@ -130,7 +130,8 @@ structure NSite where
   undoW : List NW
   doCalls : List Txt
   undoCalls : List Txt
-  caps : List Txt
+  /-- captures in scope: (identifier, text of the captured expression) -/
+  caps : List (Txt × Txt)
   deriving Repr
 
 def tx (s : String) : Txt := s.toList.map Char.toNat
@@ -149,10 +150,21 @@ def nrel (k : Txt) : Bool := k == kAdd || k == kSub || k == kInc || k == kDec
 def nopposite (a b : Txt) : Bool :=
   (a == kAdd && b == kSub) || (a == kSub && b == kAdd) || (a == kInc && b == kDec) || (a == kDec && b == kInc)
 
-def ninverts (caps : List Txt) (d u : NW) : Bool :=
+/-- `a` occurs as a contiguous part of `b` -/
+def isInfix (a : Txt) : Txt → Bool
+  | [] => a == []
+  | b@(_ :: bs) => a.isPrefixOf b || isInfix a bs
+
+/-- the right-hand side is a captured identifier whose capture expression reads the restored location
+    (`ori := loc`, `ori := copy(loc)`); a capture of something else — e.g. `oriHeight := height` restored into
+    `a.DPoSV2ActiveHeight` — does not count -/
+def ncaptured (caps : List (Txt × Txt)) (u : NW) : Bool :=
+  u.rhsIdent != [] && caps.any (fun c => c.1 == u.rhsIdent && isInfix u.loc c.2)
+
+def ninverts (caps : List (Txt × Txt)) (d u : NW) : Bool :=
   if nrel u.kind then u.loc == d.loc && nopposite d.kind u.kind && d.rhs == u.rhs
   else if u.kind == kAssign then
-    (u.rhsIdent != [] && caps.contains u.rhsIdent && ncovers u.loc d.loc) || (d.kind == kDelete && u.loc == d.loc)
+    (ncaptured caps u && ncovers u.loc d.loc) || (d.kind == kDelete && u.loc == d.loc)
   else u.kind == kDelete && d.kind == kAssign && u.loc == d.loc
 
 /-- `log.` prefix, `sort.Slice`, `sort.Sort`, `copy`, `panic`, `events.Notify` -/
